@@ -33,8 +33,8 @@ Proof.
   pose proof (read_ps_list_no_panic (N.to_nat (N.land b 31)) r1) as H1.
   destruct (read_ps_list (N.to_nat (N.land b 31)) r1) as [[spss r2]|e|s1]; cbn [bind]; [|discriminate|exfalso; exact (H1 s1 eq_refl)].
   destruct r2 as [|b2 r3]; [discriminate|].
-  pose proof (read_ps_list_no_panic (N.to_nat (N.land b2 31)) r3) as H2.
-  destruct (read_ps_list (N.to_nat (N.land b2 31)) r3) as [[ppss r4]|e|s2]; cbn [bind]; [discriminate|discriminate|exfalso; exact (H2 s2 eq_refl)].
+  pose proof (read_ps_list_no_panic (N.to_nat b2) r3) as H2.
+  destruct (read_ps_list (N.to_nat b2) r3) as [[ppss r4]|e|s2]; cbn [bind]; [discriminate|discriminate|exfalso; exact (H2 s2 eq_refl)].
 Qed.
 
 (* ---- hevc, fixed ---------------------------------------------------------------- *)
